@@ -20,22 +20,26 @@ NPROC = 8
 SHARDS = 8
 TASK_TIMEOUT = 300
 RULE = ("a scenario is one WORKFLOW = a set of commands closed under 'the inputs of a command exist', emitted by TLC as a reachable state "
-        "of MC_Workflow (files are named by their derivation, e.g. st(un(phPS(x,b)))): every workflow of <= 4 commands over {phase "
-        "--tag PS/HP, unphase, stats, compare, haplotag (+list), split (with/without --discard-unknown-reads), haplotagphase} by "
-        "breadth-first search (seeded sample in the quick tier), plus random-simulation workflows of 6-8 commands over all commands and "
-        "over the chain commands only. Each workflow is replayed, in dependency order, on real files of a seeded world (wv/phaseworld: "
-        "1-2 samples, 1-2 chromosomes, 2-6 SNV/indel/MNP sites, <= 12 single-end or paired reads per sample and chromosome, "
-        "occasional ./. calls; 1 in 5 worlds has reads with a wrong allele) through run_whatshap / run_unphase / run_stats / "
-        "run_compare / run_haplotag / run_split / run_haplotagphase; stats and compare run once per sample. Non-trivial = no command "
-        "failed, some VCF of the workflow carries a phase set with >= 2 variants, and >= 3 instances of the invariants were checked")
+        "of MC_Workflow (files are named by their derivation, e.g. st(un(phPS(x,b)))) over the commands {phase --tag PS/HP, unphase, stats, "
+        "compare, haplotag (+list), split (with/without --discard-unknown-reads), haplotagphase}. Sources: 'bfs4' every workflow of 4 "
+        "commands (breadth-first; seeded sample in the quick tier); 'sim7' workflows of 7 commands from TLC's random simulation; 'target' "
+        "for each invariant that relates 3-6 commands the smallest workflows exercising it (TLC emits the states in which the "
+        "invariant's guard holds, Live(name, fs)); 'target+bfs4', 'target+target', 'target+sim7' unions of two emitted workflows (a union "
+        "of workflows is a workflow: a command only needs its inputs). Each workflow is replayed, in dependency order, on real files of "
+        "a seeded world (wv/phaseworld: 1-2 samples, 1-2 chromosomes, 2-6 SNV/indel/MNP sites, <= 12 single-end or paired reads per "
+        "sample and chromosome, occasional ./. calls; 1 in 5 worlds has reads with a wrong allele) through run_whatshap / run_unphase / "
+        "run_stats / run_compare / run_haplotag / run_split / run_haplotagphase; stats and compare run once per sample. Non-trivial = "
+        "no command failed, some VCF of the workflow carries a phase set with >= 2 variants, and >= 3 instances of the invariants were "
+        "checked (invariant_instances_planned counts the instances by provenance)")
 ASSUMPTIONS = [
     "TLC; Workflow.tla PART 1 is the reading of 'what the commands promise each other'; the design of PART 2 is only used at design level",
     "all VCFs of a workflow descend from one unphased bi-allelic diploid VCF x, all BAMs from one BAM b (primary alignments only, "
     "read groups name the sample, read names unique up to mates); stats / compare are run with --sample",
     "W10 (chain restores the phasing, C17 as a link) is only claimed for error-free reads with coverage <= 12 (every read is used by phase)",
     "W3a/W11 rely on `phase` being a deterministic function of its input (C16): --tag only changes the encoding",
-    "whatshap split --discard-unknown-reads on a haplotag list of a PAIRED-end BAM is a known genuine defect (AssertionError, one list "
-    "row per mate): that input class is only generated when WV_X01_HAZARD=1 or KNOWN_FINDINGS.json lists it for X01",
+    "three input classes hit genuine defects of whatshap found by this check (split --discard-unknown-reads on the haplotag list of a "
+    "PAIRED-end BAM: AssertionError; haplotagphase on a VCF with a ./. call under a read: IndexError; compare counts ./. calls as "
+    "heterozygous, stats does not): these classes are only generated when WV_X01_HAZARD=1 or KNOWN_FINDINGS.json lists them for X01",
     "the projections (VCF text -> VcfModel calls via c13.project_call; stats/compare TSVs; BAM tags via pysam) are trusted",
 ]
 
@@ -44,7 +48,7 @@ CHAIN_CMDS = '{"phase","unphase","compare","haplotag","haplotagphase"}'
 CHAINST_CMDS = '{"phase","unphase","stats","haplotag","haplotagphase"}'
 TAG_CMDS = '{"phase","stats","compare","haplotag","split"}'
 INVS = ["InvW1a", "InvW1b", "InvW2a", "InvW2b", "InvW3a", "InvW3b", "InvW3c", "InvW3d", "InvW4a", "InvW4b", "InvW5", "InvW5c",
-        "InvW6", "InvW7", "InvW7n", "InvW8a", "InvW8b", "InvW9", "InvW10", "InvW10b", "InvW11", "InvClosed"]
+        "InvW6", "InvW7", "InvW7n", "InvW8a", "InvW8b", "InvW9", "InvW10", "InvW10b", "InvW11", "InvW12", "InvClosed"]
 NOOPT = {"tag": "", "smp": 0, "disc": False}
 
 
@@ -70,11 +74,11 @@ def design_mc(ctx):
     r["what"] = (f"MC_Workflow: every workflow of <= {d} commands (all 7 commands, both tags, split with/without discard) on 4 structured "
                  "worlds of 4 sites (two blocks + single-site read; block across a homozygous site; chain; unconnected): W1..W11 in every state")
     out.append(r)
-    nr, d = (1, 2) if q else (2, 3)
-    r = tlc.model_check("MC_Workflow", cfg=_cfg(ctx, "mc_all", 3, nr, d, "all", ALL_CMDS, INVS), workers=NPROC, timeout=6000)
-    r["what"] = (f"MC_Workflow: every workflow of <= {d} commands on ALL worlds of 3 sites x truth {{0|1,1|0,1|1}} x every multiset of {nr} "
-                 "error-free read(s) x orientation")
-    out.append(r)
+    for nr, d in ([(1, 2)] if q else [(2, 2), (1, 3)]):
+        r = tlc.model_check("MC_Workflow", cfg=_cfg(ctx, f"mc_all{nr}{d}", 3, nr, d, "all", ALL_CMDS, INVS), workers=NPROC, timeout=6000)
+        r["what"] = (f"MC_Workflow: every workflow of <= {d} commands on ALL worlds of 3 sites x truth {{0|1,1|0,1|1}} x every multiset of {nr} "
+                     "error-free read(s) x orientation")
+        out.append(r)
     d = 6 if q else 7
     r = tlc.model_check("MC_Workflow", cfg=_cfg(ctx, "mc_chain", 4, 0, d, "fixed", CHAIN_CMDS, INVS, tags='{"PS"}', caps="CapsR"),
                         workers=NPROC, timeout=6000)
@@ -210,6 +214,7 @@ def instances(flow):
         add("W9", sum(1 for q in cp if q["args"] == [b, a] and q is not r) if a != b else 0)
         if chain(a, b) or chain(b, a):
             add("W10")
+        add("W12", sum(1 for q in st if q["args"][0] == a))
     ph = [r for r in flow if r["cmd"] == "phase"]
     add("W3a", sum(1 for p in ph for h in ph if tagpair(p["id"], h["id"])))
     add("W4b", len(ht))
@@ -226,8 +231,9 @@ def instances(flow):
 # reproduced stand-alone, reported).  X01 is not a registered property, KNOWN_FINDINGS.json is not mine to edit: a class is generated
 # only if WV_X01_HAZARD=1 or KNOWN_FINDINGS.json has a `known` entry for X01 / clause Returns with exactly this signature.
 HAZARDS = {
-    "paired_discard": "cmd=split exc=AssertionError paired_reads=yes discard_unknown_reads=yes",
-    "missing_gt_tagphase": "cmd=haplotagphase exc=IndexError missing_gt=yes",
+    "paired_discard": ("Returns", "cmd=split exc=AssertionError paired_reads=yes discard_unknown_reads=yes"),
+    "missing_gt_tagphase": ("Returns", "cmd=haplotagphase exc=IndexError missing_gt=yes"),
+    "missing_gt_compare": ("W12", "compare het_variants0 vs stats heterozygous: missing_gt=yes"),
 }
 
 
@@ -236,8 +242,9 @@ def _hazards_enabled():
         return set(HAZARDS)
     try:
         with open("/verif/KNOWN_FINDINGS.json") as fh:
-            known = {x.get("signature") for x in json.load(fh)["findings"] if x.get("property") == PROP and x.get("status") == "known"}
-        return {k for k, sig in HAZARDS.items() if sig in known}
+            known = {(x.get("clause"), x.get("signature")) for x in json.load(fh)["findings"]
+                     if x.get("property") == PROP and x.get("status") == "known"}
+        return {k for k, cs in HAZARDS.items() if cs in known}
     except Exception:
         return set()
 
@@ -334,14 +341,16 @@ def scenarios(ctx):
         for fl in flows:
             disc = any(r["cmd"] == "split" and r["opt"]["disc"] for r in fl)
             tagphase = any(r["cmd"] == "haplotagphase" for r in fl)
+            w12 = "W12" in instances(fl)
             noisy = rng.random() < 0.2
             wd = make_world(rng, paired="paired_discard" in hazards or not disc, noisy=noisy,
-                            missing_gt="missing_gt_tagphase" in hazards or not tagphase)
+                            missing_gt=("missing_gt_tagphase" in hazards or not tagphase) and ("missing_gt_compare" in hazards or not w12))
             hz = [h for h, on in (("paired_discard", disc and any(r.get("gap") for r in wd["reads"])),
-                                  ("missing_gt_tagphase", tagphase and bool(wd.get("vcf_gt")))) if on]
+                                  ("missing_gt_tagphase", tagphase and bool(wd.get("vcf_gt"))),
+                                  ("missing_gt_compare", w12 and bool(wd.get("vcf_gt")))) if on]
             scs.append({"kind": kind + "".join(":hazard-" + h for h in hz), "errfree": not noisy, "wd": wd, "flow": fl})
             for c, v in instances(fl).items():
-                tot[c] = tot.get(c, 0) + v * len(wd["samples"]) if c in ("W1a", "W1b", "W2a", "W2b", "W3b", "W3c", "W3d", "W4a", "W6", "W9", "W10", "W10b") \
+                tot[c] = tot.get(c, 0) + v * len(wd["samples"]) if c in ("W1a", "W1b", "W2a", "W2b", "W3b", "W3c", "W3d", "W4a", "W6", "W9", "W10", "W10b", "W12") \
                     else tot.get(c, 0) + v
     ctx.notes["invariant_instances_planned"] = dict(sorted(tot.items()))
     ctx.notes["scenario_kinds"] = {k: sum(1 for s in scs if s["kind"] == k) for k in sorted({s["kind"] for s in scs})}
@@ -422,7 +431,7 @@ def proj_cmp(path):
             return c11._units(a, 2), c11._units(b, 2)
         s1, f1 = sf(d["all_switchflips"])
         s2, f2 = sf(d["largestblock_switchflips"])
-        rows.append({"c": _cidx(d["chromosome"]),
+        rows.append({"c": _cidx(d["chromosome"]), "het0": int(d["het_variants0"]),
                      "all": {"nblk": int(d["intersection_blocks"]), "cov": int(d["covered_variants"]), "pairs": int(d["all_assessed_pairs"]),
                              "sw": c11._units(d["all_switches"], 2), "sfs": s1, "sff": f1, "ham": c11._units(d["blockwise_hamming"], 2),
                              "dg": int(d["blockwise_diff_genotypes"])},
@@ -602,6 +611,8 @@ def signature(sc, events, clause):
         if bad["cmd"] == "haplotagphase":
             sig += f" missing_gt={'yes' if wd.get('vcf_gt') else 'no'}"
         return sig
+    if clause == "W12":
+        return f"compare het_variants0 vs stats heterozygous: missing_gt={'yes' if wd.get('vcf_gt') else 'no'}"
     return (f"samples={len(wd['samples'])} chroms={len(wd['chroms'])} paired_reads={'yes' if pairs else 'no'} "
             f"errfree={'yes' if sc['errfree'] else 'no'} missing_gt={'yes' if wd.get('vcf_gt') else 'no'}")
 
